@@ -904,6 +904,7 @@ class C08(Prop):
     yield from self.constructed_sealed_cases(rng, 300 if tier == 'quick' else 6000)
     yield from self.shared_sealed_cases(rng, 300 if tier == 'quick' else 6000)
     yield from self.functor_cases()
+    yield from self.usespec_cases()
     yield from self.grid_cases()
     yield from self.discovered_cases()
     yield from self.shallow_seal_cases()
@@ -1496,6 +1497,81 @@ class C08(Prop):
                 yield {'functor': kind, 'how': how, 'acc': acc, 'sealed_scopes': ss, 'acc_scopes': as_, 'op': op,
                        'tree': None, 'steps': []}
 
+  def usespec_cases(self):
+    """Exhaustive: `Dict.use_value_spec(spec)` with a COMPLETING spec (defaults for missing keys, also of a
+    nested Dict) as an entry point: Dict shapes (keys missing at the root / only in the nested Dict / none)
+    x how it is sealed (not, seal(), shallow sym_seal(), only the nested Dict) x as_sealed stacks x applied
+    directly / by handing the Dict to the constructor of an object whose field has the spec."""
+    stacks = [[], [True], [False], [None], [False, True], [True, None]]
+    for shape in ('A', 'B', 'FULL'):
+      for how in ('none', 'seal', 'sym_seal', 'child'):
+        if how == 'child' and shape == 'A':
+          continue
+        for ss in stacks:
+          for via in ('direct', 'ctor'):
+            yield {'usespec': shape, 'how': how, 'sealed_scopes': ss, 'via': via, 'tree': None, 'steps': []}
+
+  def impl_usespec(self, case):
+    import contextlib
+    import pyglove as pg
+    def make_spec():
+      return pg.typing.Dict([('x', pg.typing.Any(default=0)), ('y', pg.typing.Any(default=5)),
+                             ('z', pg.typing.Dict([('w', pg.typing.Any(default=1))]))])
+    d = {'A': lambda: pg.Dict(x=1), 'B': lambda: pg.Dict(x=1, y=2, z=pg.Dict()),
+         'FULL': lambda: pg.Dict(x=1, y=2, z=pg.Dict(w=3))}[case['usespec']]()
+    if case['how'] == 'seal':
+      d.seal(True)
+    elif case['how'] == 'sym_seal':
+      d.sym_seal(True)
+    elif case['how'] == 'child':
+      d.z.seal(True)
+    def state():
+      """per node (root, z): own sealed flag and own direct contents (a nested Dict counts as present)"""
+      def own(n):
+        return {'sealed': n.sym_sealed, 'items': [[k, '<dict>' if isinstance(v, pg.Dict) else repr(v)] for k, v in n.sym_items()]}
+      out = {'root': own(d)}
+      z = d.sym_getattr('z', None)
+      if isinstance(z, pg.Dict):
+        out['z'] = own(z)
+      return out
+    pre = state()
+    class C08Holder(pg.Object):
+      d: make_spec()
+    with contextlib.ExitStack() as st:
+      for v in case['sealed_scopes']:
+        st.enter_context(pg.as_sealed(v))
+      try:
+        if case['via'] == 'direct':
+          d.use_value_spec(make_spec())
+        else:
+          C08Holder(d=d)
+        res = 'ok'
+      except pg.WritePermissionError:
+        res = 'perm'
+      except Exception as e:    # pylint: disable=broad-except
+        res = type(e).__name__
+    return {'model': None, 'usespec': {'res': res, 'pre': pre, 'post': state()}, 'steps': [], 'pre': None}
+
+  def oracle_usespec(self, case, out):
+    o = out['usespec']
+    ss = case['sealed_scopes']
+    by_scope = bool(ss) and ss[-1] is not None
+    def treated(node):
+      return ss[-1] if by_scope else o['pre'][node]['sealed']
+    # which nodes the completing spec would write to
+    would = {'root': case['usespec'] == 'A', 'z': case['usespec'] == 'B'}
+    what = 'Dict %s sealed by %s, as_sealed%s, use_value_spec via %s -> %s: %s -> %s' % (
+        case['usespec'], case['how'], ss, case['via'], o['res'], o['pre'], o['post'])
+    for node in o['pre']:
+      if treated(node) and o['post'].get(node) != o['pre'][node]:
+        return {'signature': 'use-value-spec-sealed-modified:' + ('scope' if by_scope else case['how']), 'what': what}
+    blocked = [n for n in o['pre'] if treated(n) and would.get(n)]
+    if blocked and o['res'] != 'perm':
+      return {'signature': 'use-value-spec-sealed-no-error:' + ('scope' if by_scope else case['how']), 'what': what}
+    if not blocked and o['res'] == 'perm':
+      return {'signature': 'use-value-spec-spurious-permission-error', 'what': what}
+    return None
+
   def impl_functor(self, case):
     import contextlib
     import pyglove as pg
@@ -1564,7 +1640,7 @@ class C08(Prop):
     return None
 
   def model_request(self, case):
-    if case.get('functor'):
+    if case.get('functor') or case.get('usespec'):
       return None
     if any(s['kind'] == 'generic' for s in case['steps']):
       return None
@@ -1589,6 +1665,8 @@ class C08(Prop):
     with pg.as_sealed(None), pg.allow_writable_accessors(None):
       if case.get('functor'):
         return self.impl_functor(case)
+      if case.get('usespec'):
+        return self.impl_usespec(case)
       return self._impl_body(case)
 
   def _impl_body(self, case):
@@ -1687,6 +1765,8 @@ class C08(Prop):
   def oracle(self, case, out):
     if case.get('functor'):
       return self.oracle_functor(case, out)
+    if case.get('usespec'):
+      return self.oracle_usespec(case, out)
     pre = out['pre']
     want = self.model_tree(case)
     if out.get('pre_links') and (out['pre_links']['tree'] or out['pre_links']['ext']):
@@ -1875,7 +1955,7 @@ class C08(Prop):
     return None
 
   def nontrivial(self, case, out):
-    if case.get('functor'):
+    if case.get('functor') or case.get('usespec'):
       return True
     t = case['tree']
     for s in case['steps']:
@@ -1895,6 +1975,9 @@ class C08(Prop):
     if case.get('functor'):
       return ['functor:' + case['functor'], 'functor-sealed-by:' + case['how'], 'functor-op:' + case['op'],
               'functor-result:' + out['functor']['res']]
+    if case.get('usespec'):
+      return ['use_value_spec:' + case['usespec'], 'use_value_spec-sealed-by:' + case['how'], 'use_value_spec-via:' + case['via'],
+              'use_value_spec-result:' + out['usespec']['res']]
     h = ['steps:%d' % len(case['steps'])]
     if case.get('flag_history'):
       h.append('flag-history')
@@ -1938,7 +2021,7 @@ class C08(Prop):
     return h
 
   def shrink_candidates(self, case):
-    if case.get('functor'):
+    if case.get('functor') or case.get('usespec'):
       return
     steps = case['steps']
     if case.get('threads'):
